@@ -77,4 +77,11 @@ CONFIG = {
         "quick": {"parts": [part("TestC10", 16, 12)]},
         "thorough": {"parts": [part("TestC10", 32, 200, timeout=3000)]},
     },
+    "C20": {
+        "level": "exploration",
+        "rule": "(a) codec: rapid-generated field lists of expression trees (all expression kinds incl. BOUNDED, IF with dimension predicates, PERCENTILE, SHIFT, unary math, comparisons) are sent through rpc.Codec inside the real message structs; the decoded expressions must have the same text, width, shift, validity AND behave the same: same state bytes from generated updates, same Get, same Merge of partial states produced on either side, value equal to the denotational reference, mutual sub-merger recognition; raw series rows, flat rows, Query messages with typed subquery results and Follow requests round-trip. (b) end-to-end: generated dataset served by rpcserver.PrepareServer on 127.0.0.1, points optionally inserted through the RPC inserter (then compared with the reference aggregator), 1-3 generated queries answered through rpc.Dial(...).Query and embedded; rows, field names and metadata (asOf/until/resolution) must agree. Non-trivial: (a) tree depth >= 2 and >= 2 updates; (b) >= 2 points.",
+        "assumptions": ["disk-only queries are issued right after a forced flush so that both executions see the same file store", "the RPC insert endpoint's documented refusal of points without dims or values is respected (such points are inserted in-process)"],
+        "quick": {"parts": [part("TestC20Codec", 4, 5000), part("TestC20RPC", 12, 30)]},
+        "thorough": {"parts": [part("TestC20Codec", 16, 150000, timeout=3000), part("TestC20RPC", 16, 500, timeout=3000)]},
+    },
 }
